@@ -69,14 +69,19 @@ Fixpoint drop (n : nat) (s : str) : str :=
 Definition is_empty (s : str) : bool := match s with [] => true | _ => false end.
 
 (* markdown_it.common.utils.escapeHtml: ampersand, less-than, greater-than, double quote *)
+Definition e_amp : str := Eval vm_compute in lit "&amp;".
+Definition e_lt : str := Eval vm_compute in lit "&lt;".
+Definition e_gt : str := Eval vm_compute in lit "&gt;".
+Definition e_quot : str := Eval vm_compute in lit "&quot;".
+
 Fixpoint escape_html (s : str) : str :=
   match s with
   | [] => []
   | c :: r =>
-      (if c =? 38 then lit "&amp;"
-       else if c =? 60 then lit "&lt;"
-       else if c =? 62 then lit "&gt;"
-       else if c =? 34 then lit "&quot;"
+      (if c =? 38 then e_amp
+       else if c =? 60 then e_lt
+       else if c =? 62 then e_gt
+       else if c =? 34 then e_quot
        else [c]) ++ escape_html r
   end.
 
